@@ -1,6 +1,6 @@
 #!/bin/sh
 # tools/keep_seed.sh <Cxx> <name> "<caught by>" : store a confirmed seeded change under /verif/seeded/<name>/
-id="$1"; name="$2"; caught="$3"; src=/tmp/seed/$id/seed; dst=/verif/seeded/$name
+id="$1"; name="$2"; caught="$3"; src=${SEEDROOT:-/tmp/seed}/$id/seed; dst=/verif/seeded/$name
 mkdir -p "$dst"; cp $src/patch.diff "$dst/patch.diff"; cp $src/demo_test.go.txt "$dst/demo_test.go.txt"
 python3 - "$src/meta.json" "$dst/meta.json" "$caught" "$id" <<'PY'
 import json,sys
